@@ -13,6 +13,7 @@ import (
 	"go/token"
 	"os"
 	"path/filepath"
+	"reflect"
 	"strconv"
 	"strings"
 )
@@ -25,8 +26,16 @@ func main() {
 	root := flag.String("root", "/repo", "")
 	out := flag.String("out", "", "")
 	io := flag.Bool("imports-only", false, "only alias the sync / sync/atomic imports (for _test.go files)")
+	ownT := flag.String("own", "", "struct type whose field accesses are reported to zzmc.Access (ownership tracking)")
 	flag.Parse()
 	importsOnly = *io
+	if *ownT != "" && !importsOnly {
+		ownFields = structFields(flag.Args(), *ownT)
+		if len(ownFields) == 0 {
+			fmt.Fprintln(os.Stderr, "instr: struct type", *ownT, "not found")
+			os.Exit(2)
+		}
+	}
 	for _, f := range flag.Args() {
 		rel, err := filepath.Rel(*root, f)
 		if err != nil {
@@ -37,6 +46,236 @@ func main() {
 }
 
 var generated = map[ast.Node]bool{}
+
+// ---------------------------------------------------------------- ownership tracking
+
+var ownFields map[string]bool
+
+func structFields(files []string, typ string) map[string]bool {
+	out := map[string]bool{}
+	for _, fn := range files {
+		f, err := parser.ParseFile(token.NewFileSet(), fn, nil, 0)
+		if err != nil {
+			panic(err)
+		}
+		ast.Inspect(f, func(n ast.Node) bool {
+			ts, ok := n.(*ast.TypeSpec)
+			if !ok || ts.Name.Name != typ {
+				return true
+			}
+			if st, ok := ts.Type.(*ast.StructType); ok {
+				for _, fl := range st.Fields.List {
+					for _, nm := range fl.Names {
+						out[nm.Name] = true
+					}
+				}
+			}
+
+			return false
+		})
+	}
+
+	return out
+}
+
+// ownBase: is e a side-effect free expression that may denote a value of the tracked type?
+func (c *ctx) ownBase(e ast.Expr) bool {
+	switch x := e.(type) {
+	case *ast.Ident:
+		if c.imports[x.Name] || x.Name == "_" || x.Name == "nil" {
+			return false
+		}
+		r := x.Name[0]
+
+		return r < 'A' || r > 'Z' // an exported identifier may be a type name (method expression)
+	case *ast.SelectorExpr:
+		return c.ownBase(x.X)
+	case *ast.ParenExpr:
+		return c.ownBase(x.X)
+	case *ast.StarExpr:
+		return c.ownBase(x.X)
+	case *ast.CallExpr: // accessor of the form x.agent()
+		se, ok := x.Fun.(*ast.SelectorExpr)
+
+		return ok && len(x.Args) == 0 && se.Sel.Name == "agent" && c.ownBase(se.X)
+	}
+
+	return false
+}
+
+type ownAcc struct {
+	x     ast.Expr
+	field string
+	write bool
+}
+
+// ownCollect gathers the tracked-field accesses that the statement itself evaluates (nested blocks and
+// function literals are handled when their own statement lists are rewritten).
+func (c *ctx) ownCollect(s ast.Stmt) []ownAcc {
+	var accs []ownAcc
+	seen := map[string]bool{}
+	shadow := map[string]bool{} // names the statement itself declares (if x := ...; x.f): not visible before it
+	var rootIdent func(e ast.Expr) string
+	rootIdent = func(e ast.Expr) string {
+		switch x := e.(type) {
+		case *ast.Ident:
+			return x.Name
+		case *ast.SelectorExpr:
+			return rootIdent(x.X)
+		case *ast.ParenExpr:
+			return rootIdent(x.X)
+		case *ast.StarExpr:
+			return rootIdent(x.X)
+		case *ast.CallExpr:
+			return rootIdent(x.Fun)
+		}
+
+		return ""
+	}
+	declares := func(s ast.Stmt) {
+		if as, ok := s.(*ast.AssignStmt); ok && as.Tok == token.DEFINE {
+			for _, l := range as.Lhs {
+				if id, ok := l.(*ast.Ident); ok {
+					shadow[id.Name] = true
+				}
+			}
+		}
+	}
+	add := func(se *ast.SelectorExpr, write bool) {
+		if !ownFields[se.Sel.Name] || !c.ownBase(se.X) || shadow[rootIdent(se.X)] {
+			return
+		}
+		var b bytes.Buffer
+		_ = format.Node(&b, fset, se.X)
+		k := fmt.Sprintf("%s.%s/%v", b.String(), se.Sel.Name, write)
+		if seen[k] {
+			return
+		}
+		seen[k] = true
+		accs = append(accs, ownAcc{se.X, se.Sel.Name, write})
+	}
+	// root of an assignable expression: a.f, a.f[i], a.f.g, (*a.f) ...: the tracked field that is modified
+	var lhsRoot func(e ast.Expr) *ast.SelectorExpr
+	lhsRoot = func(e ast.Expr) *ast.SelectorExpr {
+		switch x := e.(type) {
+		case *ast.SelectorExpr:
+			if ownFields[x.Sel.Name] && c.ownBase(x.X) {
+				return x
+			}
+
+			return lhsRoot(x.X)
+		case *ast.IndexExpr:
+			return lhsRoot(x.X)
+		case *ast.ParenExpr:
+			return lhsRoot(x.X)
+		case *ast.StarExpr:
+			return lhsRoot(x.X)
+		}
+
+		return nil
+	}
+	var expr func(n ast.Node)
+	expr = func(n ast.Node) {
+		if n == nil || reflect.ValueOf(n).IsNil() {
+			return
+		}
+		ast.Inspect(n, func(m ast.Node) bool {
+			switch x := m.(type) {
+			case *ast.FuncLit, *ast.BlockStmt:
+				return false
+			case *ast.SelectorExpr:
+				add(x, false)
+			case *ast.CallExpr:
+				if id, ok := x.Fun.(*ast.Ident); ok && (id.Name == "delete" || id.Name == "clear") && len(x.Args) > 0 {
+					if r := lhsRoot(x.Args[0]); r != nil {
+						add(r, true)
+					}
+				}
+			}
+
+			return true
+		})
+	}
+	var header func(s ast.Stmt)
+	header = func(s ast.Stmt) {
+		switch x := s.(type) {
+		case nil:
+		case *ast.LabeledStmt:
+			header(x.Stmt)
+		case *ast.AssignStmt:
+			for _, l := range x.Lhs {
+				if r := lhsRoot(l); r != nil {
+					add(r, true)
+				}
+			}
+			expr(x)
+		case *ast.IncDecStmt:
+			if r := lhsRoot(x.X); r != nil {
+				add(r, true)
+			}
+			expr(x)
+		case *ast.IfStmt:
+			header(x.Init)
+			declares(x.Init)
+			expr(x.Cond)
+			if e, ok := x.Else.(*ast.IfStmt); ok {
+				header(e)
+			}
+		case *ast.ForStmt:
+			header(x.Init)
+			declares(x.Init)
+			expr(x.Cond)
+			header(x.Post)
+		case *ast.RangeStmt:
+			expr(x.X)
+		case *ast.SwitchStmt:
+			header(x.Init)
+			declares(x.Init)
+			expr(x.Tag)
+			for _, cl := range x.Body.List {
+				for _, e := range cl.(*ast.CaseClause).List {
+					expr(e)
+				}
+			}
+		case *ast.TypeSwitchStmt:
+			header(x.Init)
+			declares(x.Init)
+			header(x.Assign)
+		case *ast.SelectStmt:
+			for _, cl := range x.Body.List {
+				header(cl.(*ast.CommClause).Comm)
+			}
+		case *ast.BlockStmt:
+		default:
+			expr(s)
+		}
+	}
+	header(s)
+
+	return accs
+}
+
+func (c *ctx) ownStmts(s ast.Stmt) []ast.Stmt {
+	if ownFields == nil || !c.full {
+		return nil
+	}
+	switch s.(type) {
+	case *ast.CaseClause, *ast.CommClause:
+		return nil
+	}
+	var out []ast.Stmt
+	for _, a := range c.ownCollect(s) {
+		w := "false"
+		if a.write {
+			w = "true"
+		}
+		c.usedZZ = true
+		out = append(out, stmt(call("Access", a.x, &ast.BasicLit{Kind: token.STRING, Value: strconv.Quote(a.field)}, c.site(s), ast.NewIdent(w))))
+	}
+
+	return out
+}
+
 var importsOnly bool
 
 type ctx struct {
@@ -45,6 +284,7 @@ type ctx struct {
 	nsel    int
 	nspawn  int
 	usedZZ  bool
+	imports map[string]bool
 	selPre  []ast.Stmt
 	errs    []string
 }
@@ -82,7 +322,19 @@ func do(root, out, rel string, full bool) {
 	}
 	f.Comments = nil
 	f.Doc = nil
-	c := &ctx{file: filepath.Base(rel), full: full}
+	c := &ctx{file: filepath.Base(rel), full: full, imports: map[string]bool{}}
+	for _, im := range f.Imports {
+		p, _ := strconv.Unquote(im.Path.Value)
+		name := p[strings.LastIndex(p, "/")+1:]
+		if im.Name != nil {
+			name = im.Name.Name
+		}
+		c.imports[name] = true
+		if strings.HasPrefix(name, "v") && len(name) <= 3 { // module major version suffix: the package name is the element before
+			q := p[:strings.LastIndex(p, "/")]
+			c.imports[q[strings.LastIndex(q, "/")+1:]] = true
+		}
+	}
 	// imports
 	hasRuntimeGosched := false
 	for _, im := range f.Imports {
@@ -210,6 +462,9 @@ func (c *ctx) rewriteList(list []ast.Stmt) []ast.Stmt {
 		if ls, ok := s.(*ast.LabeledStmt); ok {
 			label = ls
 			inner = ls.Stmt
+		}
+		if gs, ok := inner.(*ast.GoStmt); !ok || !generated[gs] {
+			out = append(out, c.ownStmts(inner)...)
 		}
 		switch x := inner.(type) {
 		case *ast.GoStmt:
